@@ -17,7 +17,9 @@ XAtoms == {
   Pj(<<VIv(3, 0, <<<<2, 0>>>>), V0(4)>>),                            \* P(V3 @ V2, V4): two worlds
   Pc(<<VIv(4, 0, <<<<2, 0>>>>)>>, <<VIv(3, 0, <<<<2, 0>>>>)>>),      \* P[V2](V4 | V3)
   Pj(<<VIv(2, 0, <<<<1, 0>>>>), VIv(3, 0, <<<<1, 0>>>>)>>),          \* P[V1](V2, V3)
-  Pj(<<V0(1), V0(2), V0(3)>>) }
+  Pj(<<V0(1), V0(2), V0(3)>>),
+  \* three conditions: written with operator chains,  V4 | V3 | V2 & V1,  the last two arrive as one joint distribution
+  Pc(<<V0(4)>>, <<V0(1), V0(2), V0(3)>>) }
 InitX == /\ m \in {A(p) : p \in XAtoms} /\ depth = 0
 SpecX == InitX /\ [][Step]_vars
 =============================================================================
